@@ -320,5 +320,60 @@ func rulePack(c *Ctx) *RuleResult {
 			r.fail("align-error-checks:"+n, p.Pos(f.Pos()), fmt.Sprintf("(*%s).align raises {%s} while (*packer).align raises {%s}: a format asking for an alignment that is not a power of two is an error for pack but silently accepted here", n, e, ref))
 		}
 	}
+	// (e) the option that follows 'X' only lends its alignment and is swallowed, whatever
+	// that alignment is: align answers true ("go on and read/write the value") only after
+	// it has looked at alignOnly and found it false
+	for _, n := range []string{"packer", "packsizer", "unpacker"} {
+		f := aligns[n]
+		if f == nil {
+			continue
+		}
+		gc := newGuardCtx(f)
+		nTrue, bad := 0, ""
+		forEachInstr(f, func(ins ssa.Instruction) {
+			ret, ok := ins.(*ssa.Return)
+			if !ok || len(ret.Results) != 1 {
+				return
+			}
+			// the blocks this return's value can come from as the constant true
+			var fromBlocks []*ssa.BasicBlock
+			switch v := ret.Results[0].(type) {
+			case *ssa.Const:
+				if k, isK := constInt(v); isK && k != 0 {
+					fromBlocks = []*ssa.BasicBlock{ret.Block()}
+				}
+			case *ssa.Phi:
+				for i, e := range v.Edges {
+					if k, isK := constInt(e); isK && k != 0 {
+						fromBlocks = append(fromBlocks, v.Block().Preds[i])
+					}
+				}
+			}
+			for _, b := range fromBlocks {
+				nTrue++
+				seenFlag := false
+				for _, ge := range gc.MustEdges(b) {
+					if u, ok := ge.If.Cond.(*ssa.UnOp); ok && u.Op == token.MUL {
+						if fa, ok := u.X.(*ssa.FieldAddr); ok {
+							if _, _, fn := fieldOfAddr(fa); fn == "alignOnly" && !ge.Taken {
+								seenFlag = true
+							}
+						}
+					}
+				}
+				if !seenFlag {
+					bad = p.InstrPos(ret)
+				}
+			}
+		})
+		switch {
+		case nTrue == 0:
+			r.note("(*%s).align has no constant-true return (shape changed): not decided", n)
+		case bad == "":
+			r.ok("(e) (*" + n + ").align says 'go on' only after finding alignOnly false")
+		default:
+			r.fail("align-skips-alignonly:"+n, bad, fmt.Sprintf("(*%s).align can answer true without having tested alignOnly: the option after 'X' (e.g. Xb, whose alignment is 0 or 1) is then treated as a real item by this interpreter of the format and as X's operand by its siblings, so pack, unpack and packsize disagree on the format", n))
+		}
+	}
 	return r
 }
